@@ -182,6 +182,7 @@ def run_probes(rep, thorough):
             stmts = ['create table t(k int%s, v int)' % (' primary key' if pk else '')]
             model = []
             deleted_rows = []
+            deleted_by_stmt = []
             seq = 0
             checks = []
             for step in hist:
@@ -199,11 +200,13 @@ def run_probes(rep, thorough):
                     stmts.append('delete from t where ' + pred)
                     keep = []
                     removed = 0
+                    deleted_by_stmt.append([])
                     for k, v in model:
                         hit = eval(pred.replace(' = ', ' == ').replace('and', 'and'), {}, {'k': k, 'v': v})
                         if hit:
                             removed += 1
                             deleted_rows.append((k, v))
+                            deleted_by_stmt[-1].append((k, v))
                         else:
                             keep.append((k, v))
                     model = keep
@@ -239,8 +242,11 @@ def run_probes(rep, thorough):
                 if kind == 'table-content' and eng == 'disk' and got is not None:
                     extra = [r for r in got if r not in want]
                     missing = [r for r in want if r not in got]
-                    if extra and not missing and all(r in deleted_rows for r in extra):
-                        # the symptom of the background compactor replacing row-sets while a DELETE commits (timing dependent)
+                    whole = [set(dl) for dl in deleted_by_stmt if dl and all(r in extra for r in dl)]
+                    if big and extra and not missing and whole and set(extra) == set().union(*whole):
+                        # the symptom of the background compactor replacing row-sets while a DELETE commits (timing dependent):
+                        # the *whole* effect of one or more DELETE statements is lost, in a history long enough for the
+                        # compactor's timer to fire.  Anything else (some rows of a DELETE, a short history) is a new violation.
                         key = 'history:disk:deleted-rows-reappear'
                 what = 'after `%s` (history %d, %s engine%s%s): %s is %s, the model says %s' % ('; '.join(stmts[1:idx + 1])[-200:], hi, eng, ', %d-byte blocks' % block if block else '', ', primary key' if pk else '', kind, got, want)
                 outc = rep.counterexample(key, what[:500], {'stmts': stmts[:idx + 1], 'got': got, 'expected': want}, True)
